@@ -62,6 +62,8 @@ func Layer(r *ev.Run) {
 	r.RequireAtLeast("mysql_nonowner_reads_checked", 15)
 	r.RequireAtLeast("mysql_upsert_statements_checked", 15)
 	r.RequireAtLeast("mysql_values_with_percent_runs_written", 30)
+	r.RequireAtLeast("mysql_result_fields_at_lenenc_boundary_equal_reference", 40)
+	r.RequireAtLeast("mysql_forwarded_bound_values_of_250_to_252_bytes", 10)
 	r.RequireAtLeast("mysql_upserts_with_protected_values_and_unprotected_assignments", 5)
 }
 
@@ -469,6 +471,9 @@ func RunStep(r *ev.Run, w *World, ac, rc *proxyrig.MyClient, st proxyrig.MyStep,
 				r.Count("mysql_masked_values_with_percent_runs_at_the_window_written", 1)
 			}
 		}
+		if proxyrig.IsLenEncBoundary(len(wr.V.Bytes())) {
+			r.Count("mysql_protected_values_at_lenenc_boundary_written", 1)
+		}
 		m := wr.V.Marker()
 		if m == nil {
 			continue
@@ -502,6 +507,28 @@ func RunStep(r *ev.Run, w *World, ac, rc *proxyrig.MyClient, st proxyrig.MyStep,
 		}
 	}
 	r.Count("mysql_owner_replies_equal_reference", 1)
+	// non-vacuity of the length-encoding boundary class: fields of boundary length delivered to the owner (and equal to the
+	// reference), bound values of 250..252 bytes that arrived at the database
+	for _, rr := range refRes {
+		for _, row := range rr.Rows {
+			for _, f := range row {
+				if !f.Null && proxyrig.IsLenEncBoundary(len(f.B)) {
+					r.Count("mysql_result_fields_at_lenenc_boundary_equal_reference", 1)
+					r.Distinct(fmt.Sprintf("my|lenenc-boundary-field|%d|%s", len(f.B), st.Proto))
+				}
+			}
+		}
+	}
+	for _, m := range window {
+		if m.Exec != nil {
+			for _, p := range m.Exec.Params {
+				if !p.Null && len(p.Data) >= 250 && len(p.Data) <= 252 {
+					r.Count("mysql_forwarded_bound_values_of_250_to_252_bytes", 1)
+					r.Distinct(fmt.Sprintf("my|lenenc-boundary-param|%d", len(p.Data)))
+				}
+			}
+		}
+	}
 	if st.Kind == "select" {
 		for _, name := range st.ResultCols {
 			if c := t.Col(name); c != nil {
